@@ -436,7 +436,9 @@ def source_features(repo):
     tail = m.group(1)
     return {"srcIndexTailChecksBase": int("check_mem_base" in tail and "is_pre_or_post" in tail),
             "srcIndexTailChecksWIndex": int("RegType::kGp32" in tail and "B(13)" in tail),
-            "srcMatchWideNarrow": int("match_wide_narrow" in src)}
+            "srcMatchWideNarrow": int("match_wide_narrow" in src),
+            # fixes/C02-16.patch: movi/mvni with 64-bit elements look at the second immediate (the original reads operand 0 as an immediate)
+            "srcMoviChecksShiftOperand": int("o2.is_imm() && (o2.as<Imm>().value() != 0" in src)}
 
 
 def render_tables(insts, rows, consts, encids):
